@@ -140,10 +140,14 @@ impl ParsedParameters {
     }
 
     pub fn ellps(&self, index: usize) -> Ellipsoid {
-        // if 'ellps' was explicitly given, it will override 'ellps_0'
+        // 'ellps' overrides 'ellps_0' - unless it is there by default only,
+        // while 'ellps_0' was explicitly given
         if index == 0 {
-            if let Some(e) = self.text.get("ellps") {
-                return Ellipsoid::named(e).unwrap_or_default();
+            let indexed_only = self.given.contains_key("ellps_0") && !self.given.contains_key("ellps");
+            if !indexed_only {
+                if let Some(e) = self.text.get("ellps") {
+                    return Ellipsoid::named(e).unwrap_or_default();
+                }
             }
         }
         let key = format!("ellps_{index}");
